@@ -1,0 +1,80 @@
+//go:build verif
+
+package virtual
+
+import (
+	"github.com/buildbarn/bb-storage/pkg/digest"
+)
+
+// VerifPoolFileState is a raw copy of the bookkeeping fields of a
+// pool-backed file. It is only used by external verification tooling;
+// nothing in here takes decisions.
+type VerifPoolFileState struct {
+	// Found is false if the leaf is not (a handle allocator wrapper
+	// around) a pool-backed file.
+	Found bool
+	// Locked is true if the file's lock was held by somebody else,
+	// in which case the remaining fields are not filled in.
+	Locked bool
+
+	ReferenceCount           uint
+	WritableDescriptorsCount uint
+	FrozenDescriptorsCount   uint
+	Size                     uint64
+	ChangeID                 uint64
+	CachedDigestValid        bool
+	CachedDigestHash         string
+	CachedDigestSizeBytes    int64
+	FileReleased             bool
+	HasNoMoreWritersWakeup   bool
+	HasUnfreezeWakeup        bool
+}
+
+// verifUnwrapPoolFile strips the stateful FUSE/NFS handle decorators
+// off a leaf and returns the pool-backed file underneath, if any.
+func verifUnwrapPoolFile(leaf Leaf) *fileBackedFile {
+	for i := 0; i < 8; i++ {
+		switch l := leaf.(type) {
+		case *fileBackedFile:
+			return l
+		case *fuseStatefulLinkableLeaf:
+			leaf = l.LinkableLeaf
+		case *nfsStatefulLinkableLeaf:
+			leaf = l.LinkableLeaf
+		default:
+			return nil
+		}
+	}
+	return nil
+}
+
+// VerifPoolFileStateOf returns the counters of the pool-backed file
+// behind a leaf. It never blocks: if the file's lock is taken, Locked
+// is set instead.
+func VerifPoolFileStateOf(leaf Leaf) VerifPoolFileState {
+	f := verifUnwrapPoolFile(leaf)
+	if f == nil {
+		return VerifPoolFileState{}
+	}
+	if !f.lock.TryRLock() {
+		return VerifPoolFileState{Found: true, Locked: true}
+	}
+	defer f.lock.RUnlock()
+	s := VerifPoolFileState{
+		Found:                    true,
+		ReferenceCount:           f.referenceCount,
+		WritableDescriptorsCount: f.writableDescriptorsCount,
+		FrozenDescriptorsCount:   f.frozenDescriptorsCount,
+		Size:                     f.size,
+		ChangeID:                 f.changeID,
+		FileReleased:             f.file == nil,
+		HasNoMoreWritersWakeup:   f.noMoreWritersWakeup != nil,
+		HasUnfreezeWakeup:        f.unfreezeWakeup != nil,
+	}
+	if f.cachedDigest != digest.BadDigest {
+		s.CachedDigestValid = true
+		s.CachedDigestHash = f.cachedDigest.GetHashString()
+		s.CachedDigestSizeBytes = f.cachedDigest.GetSizeBytes()
+	}
+	return s
+}
